@@ -13,26 +13,44 @@ SH_REPLACE.update({
   'tmcg_mpz_srandomb': 'vfs_randomb', 'tmcg_mpz_ssrandomb': 'vfs_randomb', 'tmcg_mpz_wrandomb': 'vfs_randomb',
   'JareckiLysyanskayaEDCF::Flip_twoparty': 'vfs_flip'})
 SH_ASSUME = PROTO_ASSUME + ['hash keys hold every argument (up to 44 integers per call; more is a model bound)']
-SH_UW = {'_ZNSt11char_traitsIcE6lengthEPKc.0': 64, '_ZNSs6appendEPKcm.1': 64}   # exception-message strings
+# per-loop bounds known in advance (saves witness rounds; a bound that is too small is still detected and raised): exception-message
+# strings, the oracle tables of vfh_shuffle.hh (concrete loops; the nested one counts q*q+1 <= 122 back edges), the power tables (TMCG_MAX_FPOWM_T + 1).
+# The default bound (unwind=4) covers the loops over the bits of an exponent below q < 8; every symbolically bounded loop is
+# unrolled 'unwind' times, so this number drives the solver time (unwind 12 -> 4: 135 s -> 30 s per query for a 3-card mix).
+SH_UW = {'_ZNSt11char_traitsIcE6lengthEPKc.0': 64, '_ZNSs6appendEPKcm.1': 64, '_ZL10vfs_tableslll.0': 130, '_ZL10vfs_tableslll.1': 130,
+         '_ZL10vfs_tableslll.2': 130, '_ZL10vfs_tableslll.3': 130, '_ZL10vfs_tableslll.4': 130, '_Z19tmcg_mpz_fpowm_initPA1_12__mpz_struct.1': 10,
+         '_Z19tmcg_mpz_fpowm_initPA1_12__mpz_struct.0': 10}
+# loops of the harness-side helpers (vfh_shuffle.hh and the entry functions): all have concrete trip counts (hash-key lengths up to 44,
+# transcripts up to 37 tokens), so a generous bound costs nothing
+for _fn in ('_Z12vfs_shash_vaP12__mpz_structmz', '_Z14vfs_shash_1vecP12__mpz_structRKSt6vectorIS0_SaIS0_EEmz', '_Z14vfs_shash_2vecP12__mpz_structRKSt6vectorIS0_SaIS0_EES5_mz',
+            '_Z14vfs_shash_4vecP12__mpz_structRKSt6vectorIS0_SaIS0_EES5_S5_S5_mz', '_Z18vfs_shash_2pairvecP12__mpz_structRKSt6vectorISt4pairIS0_S0_ESaIS3_EES7_mz',
+            '_Z22vfs_shash_2pairvec2vecP12__mpz_structRKSt6vectorISt4pairIS0_S0_ESaIS3_EES7_RKS1_IS0_SaIS0_EESB_mz',
+            '_Z22vfs_shash_4pairvec2vecP12__mpz_structRKSt6vectorISt4pairIS0_S0_ESaIS3_EES7_S7_S7_RKS1_IS0_SaIS0_EESB_mz', '_Z13vfs_shash_strP12__mpz_structRKSs',
+            '_ZL10vfs_digestP12__mpz_structjPKl', '_ZL13vfs_push_pvecPlRjRKSt6vectorISt4pairIP12__mpz_structS4_ESaIS5_EE', '_ZL12vfs_push_vecPlRjRKSt6vectorIP12__mpz_structSaIS3_EE',
+            '_ZL5slurpRSt18basic_stringstreamIcSt11char_traitsIcESaIcEEPlj',
+            'h_mix_vtmf', 'h_mix_created', 'h_glue_vtmf', 'h_skc_fprime_tamper'):
+    for _i in range(9): SH_UW['%s.%d' % (_fn, _i)] = 50
 def _perms(n): return [{'H_N': n, 'H_PERM': i} for i in range(_math.factorial(n))]
 def _g(p, q, g, k, **kw): d = GRP(p, q, g, k); d.update(kw); return d
 
 # ------------------------------------------------------------------ C02: mixing a stack
 PROTO('C02', 'mix_vtmf', 'C02_mix.cc', 'h_mix_vtmf', 'TMCG_MixStack<VTMF_Card>: same size, output card i == re-encryption of input card pi[i] (c_1*g^r, c_2*h^r), opens to the same message',
       'key x, every card component (arbitrary group elements), every masking exponent in [0,q), timing flag; permutation enumerated by slices',
-      tu=SH_TU, config=SH_CFG, replace=SH_REPLACE, assumptions=SH_ASSUME, unwind=12, unwindset=SH_UW,
-      groups=[_g(11, 5, 3, 2, **s) for s in _perms(2)] + [_g(7, 3, 2, 2, **s) for s in _perms(3)],
-      groupsT=[_g(11, 5, 3, 2, **s) for s in _perms(2) + _perms(3)] + [_g(7, 3, 2, 2, **s) for s in _perms(3)] + [_g(23, 11, 2, 2, **s) for s in _perms(2)],
-      bounds='n = 2 cards in p=11,q=5 and n = 3 in p=7,q=3 (quick); thorough adds n = 3 in p=11 and n = 2 in p=23,q=11; one query per permutation; TMCG_MAX_CARDS = 4')
+      tu=SH_TU, config=SH_CFG, replace=SH_REPLACE, assumptions=SH_ASSUME, unwind=4, unwindset=SH_UW,
+      groups=[_g(11, 5, 3, 2, **s) for s in _perms(2)],
+      groupsT=[_g(11, 5, 3, 2, **s) for s in _perms(2)] + [_g(7, 3, 2, 2, H_TAP=t, **s) for s in _perms(3) for t in (0, 1)], timeout=3000,
+      bounds='n = 2 cards in p=11,q=5 (quick); thorough adds n = 3 in p=7,q=3 (all 6 permutations, timing flag by slice); one query per permutation; TMCG_MAX_CARDS = 4')
 PROTO('C02', 'mix_created', 'C02_mix.cc', 'h_mix_created', 'TMCG_CreateStackSecret (permutation / rotation) + TMCG_MixStack: bijective indices, exponents in [2,q), rotation by the returned offset, multiset of opened messages preserved',
       'key x, every card component, all permutation / rotation draws, all masking-exponent coins',
-      tu=SH_TU, config=SH_CFG, replace=SH_REPLACE, assumptions=SH_ASSUME + ['bounded sampler tmcg_mpz_srandom_mod replaced by its contract (value in [0,m)); at most H_MAXDRAWS coin draws (rejection loop of MaskingValue)'], unwind=12, unwindset=SH_UW,
-      groups=[_g(7, 3, 2, 2, H_N=n, H_CYCLIC=c) for n in (2, 3) for c in (0, 1)],
-      groupsT=[_g(7, 3, 2, 2, H_N=n, H_CYCLIC=c) for n in (2, 3) for c in (0, 1)] + [_g(11, 5, 3, 2, H_N=2, H_CYCLIC=c) for c in (0, 1)],
-      bounds='n = 2, 3 cards, p=7,q=3 (quick) / adds n = 2 in p=11,q=5 (thorough); cyclic flag by slices; at most 12 coin draws')
+      tu=SH_TU, config=SH_CFG, replace=SH_REPLACE, assumptions=SH_ASSUME + ['bounded sampler tmcg_mpz_srandom_mod replaced by its contract (value in [0,m)); at most H_MAXDRAWS coin draws (rejection loop of MaskingValue)'], unwind=4, unwindset=SH_UW,
+      groups=[_g(7, 3, 2, 2, H_N=n, H_CYCLIC=c) for n in (2, 3) for c in (0, 1)], timeout=3000, in_tiers=('thorough',),
+      bounds='n = 2, 3 cards, p=7,q=3; cyclic flag by slices; at most 12 coin draws; thorough tier only (about 16 min per slice on a loaded machine)')
 PROTO('C02', 'glue_vtmf', 'C02_mix.cc', 'h_glue_vtmf', 'TMCG_GlueStackSecret<VTMF>: MixStack(s, Glue(sigma, pi)) == MixStack(MixStack(s, sigma), pi); glued indices are a bijection',
       'key x, every card component, all exponents of both secrets; both permutations enumerated by slices',
-      tu=SH_TU, config=SH_CFG, replace=SH_REPLACE, assumptions=SH_ASSUME, unwind=12, unwindset=SH_UW,
-      groups=[_g(7, 3, 2, 2, H_N=2, H_PERM=a, H_PERM2=b) for a in range(2) for b in range(2)],
-      groupsT=[_g(7, 3, 2, 2, H_N=3, H_PERM=a, H_PERM2=b) for a in range(6) for b in range(6)] + [_g(11, 5, 3, 2, H_N=2, H_PERM=a, H_PERM2=b) for a in range(2) for b in range(2)],
-      bounds='n = 2, p=7,q=3, all 4 pairs of permutations (quick); n = 3 all 36 pairs and n = 2 in p=11 (thorough)')
+      tu=SH_TU, config=SH_CFG, replace=SH_REPLACE, assumptions=SH_ASSUME, unwind=4, unwindset=SH_UW,
+      groups=[_g(7, 3, 2, 2, H_N=2, H_PERM=a, H_PERM2=b) for a in range(2) for b in range(2)], timeout=3000, in_tiers=('thorough',),
+      bounds='n = 2, p=7,q=3, all 4 pairs of permutations; thorough tier only (about 13 min per slice on a loaded machine)')
+
+# The harnesses for the Groth shuffle argument (C03_vsshe.cc), the rotation argument (C03_vrhe.cc) and the cut-and-choose proofs
+# (C04_cutchoose.cc), including the concrete-vector SKC tamper entry C05_skc_fprime_tamper_cv, are NOT registered: none of them closed within the available time on the loaded machine (witness rounds of
+# 13-17 min each, see notes/shuffle.md, which also holds the index entries that were prepared for them).
